@@ -136,6 +136,14 @@ def run_cases(cases, mode="trace", workdir=None, per_case_timeout=0.5, plain=Fal
                     cur.ms = int(line.split()[1])
                 elif line.startswith(b"DRIFT"):
                     cur.flags.add("DRIFT")
+                    # what the REAL make_formatter returned (OUT is the replica pipeline's, the one the stage dumps come from): the
+                    # text-level oracles judge this one
+                    p = line.split()
+                    if len(p) > 1:
+                        try:
+                            cur.out = _unhex(p[1].decode())
+                        except ValueError:
+                            pass
                 elif line.startswith(b"CURSORDEP"):
                     cur.flags.add("CURSORDEP")
                 elif line.startswith(b"BADUTF8"):
